@@ -212,12 +212,66 @@ def marker_discipline(ctx, rep):
                 else:
                     so = ("rv",)
                 same = fmt_origin(lo) in fmt_origin(so) or lo == so or any(fmt_origin(lo) == fmt_origin(a) for c in origin_calls(so) for a in c[3]) or _mentions(so, lo)
+                if not same:
+                    same = _paired_by_producer(ctx, lo, so)
                 ok = same
                 detail = "the marker letter written (%s) is not the codepage being switched to (%s)" % (fmt_origin(lo), fmt_origin(so))
             ordn = len([1 for i in rep.instances if i["key"].startswith("R10.6:switch:%s:" % (b.locals[loc_].get("name") or loc_))])
             rep.check("R10.6", "switch:%s:%d" % (b.locals[loc_].get("name") or loc_, ordn), ok, "to_lossy_bytes: " + detail, b.loc(d[3]["line"] if d[0] == "stmt" else d[2]["line"]),
                       sample={"state": b.locals[loc_].get("name"), "block": bb})
     rep.floor("R10.6", 2)
+
+
+def _paired_by_producer(ctx, lo, so):
+    """letter and encoding are two fields of one tuple returned by a workspace helper: the pairing is established where that
+    tuple is built - in the helper (or a closure of it) every tuple of that arity holds `x.as_lfs_codepage()` of the very `x`
+    it holds as the letter"""
+    from mirq import strip_refs, callee as _callee
+
+    def split(o):
+        o = strip_refs(o)
+        while o[0] == "deref":
+            o = strip_refs(o[1])
+        if o[0] == "field" and isinstance(o[2], int):
+            return strip_refs(o[1]), o[2]
+        return None, None
+    xl, il = split(lo)
+    xs, i_s = split(so)
+    if xl is None or xs is None or xl != xs or il == i_s:
+        return False
+    x = xl
+    if not (x[0] == "field" and x[1][0] == "downcast" and x[1][3] == "Some" and x[1][1][0] == "call"):
+        return False
+    f = x[1][1][2] or x[1][1][1]
+    if f and ctx.mir.body(f) is None and (x[1][1][1] or "").endswith(("Iterator::find_map", "Iterator::filter_map")):
+        # the tuple is what a closure handed to find_map returns: that closure is the producer
+        clo = [a for a in x[1][1][3] if isinstance(a, tuple) and a and a[0] == "agg" and a[1][0] == "closure"]
+        f = clo[0][1][1] if len(clo) == 1 else None
+    if not f or ctx.mir.body(f) is None:
+        return False
+    found = 0
+    for name in sorted(ctx.mir.bodies):
+        if not (name == f or name.startswith(f + "::{closure")) or name.endswith("#promoted"):
+            continue
+        fb = ctx.mir.body(name)
+        for bl in fb.blocks:
+            for st in bl["stmts"]:
+                if st["k"] == "assign" and st["rv"]["k"] == "agg" and st["rv"].get("agg") == "tuple" and len(st["rv"]["ops"]) > max(il, i_s):
+                    ol = strip_refs(fb.origin(st["rv"]["ops"][il]))
+                    while ol[0] == "deref":
+                        ol = strip_refs(ol[1])
+                    os_ = fb.origin(st["rv"]["ops"][i_s])
+                    calls = [c for c in fb.may_calls(os_) if (c[1] or "").endswith("as_lfs_codepage")]
+                    if not calls:
+                        continue          # a tuple of something else
+                    found += 1
+                    for c in calls:
+                        a = strip_refs(c[3][0]) if c[3] else None
+                        while a is not None and a[0] == "deref":
+                            a = strip_refs(a[1])
+                        if a != ol:
+                            return False
+    return found >= 1
 
 
 def _mentions(o, needle):
